@@ -2,6 +2,9 @@ CONSTANTS
   MaxObjs = 2
   MaxOps = 3
   MaxSteps = 4
+  NRepos = 2
+  EmitEvery = 1
+  Unscoped = {}
   JsonTree = TRUE
   StatusOnly = FALSE
   RemoveDrops = FALSE
